@@ -20,4 +20,4 @@ require (
 	google.golang.org/protobuf v1.35.1 // indirect
 )
 
-replace github.com/gebn/bmc => /tmp/mut.C16-4.18089
+replace github.com/gebn/bmc => /tmp/mut.C20-9.21925
